@@ -127,6 +127,8 @@ class Env:
             if t["f"] == "COUNT" and not args:
                 args = ["*"]
             r = cls(*args) if cls else Function(t["f"], *args)
+            if t.get("dist"):
+                r = r.distinct()
         elif k == "case":
             r = P.Case().when(self.term(t["w"]), self.term(t["t"])).else_(self.term(t["e"]))
         elif k == "win":
